@@ -191,6 +191,10 @@ func (e *boundsEngine) valTermS(v ssa.Value, depth int) (string, []string, bool)
 		if isIntType(x.X.Type()) && isIntType(x.Type()) {
 			return e.valTermS(x.X, depth+1)
 		}
+		// string <-> []byte conversions keep the length (terms of such values are only used inside len())
+		if isStringOrBytes(x.X.Type()) && isStringOrBytes(x.Type()) {
+			return e.valTermS(x.X, depth+1)
+		}
 	case *ssa.Slice:
 		// x[:]  has the same length as x
 		if x.Low == nil && x.High == nil {
@@ -874,8 +878,13 @@ func (e *boundsEngine) nonneg(v ssa.Value, facts []fact, use ssa.Instruction, de
 		}
 	case *ssa.Phi:
 		all := true
-		for _, ed := range x.Edges {
-			if !e.nonneg(ed, nil, use, depth+1, busy) {
+		for i, ed := range x.Edges {
+			pred := x.Block().Preds[i]
+			var ef []fact
+			if depth < 3 {
+				ef = e.edgeFacts(pred, x.Block())
+			}
+			if !e.nonneg(ed, ef, pred.Instrs[len(pred.Instrs)-1], depth+1, busy) {
 				all = false
 				break
 			}
@@ -1367,7 +1376,7 @@ func (e *boundsEngine) indexOK1(x, idx ssa.Value, facts []fact, use ssa.Instruct
 		return false, "cannot name the index or the length symbolically"
 	}
 	lower := e.nonneg(idx, facts, use, 0, map[ssa.Value]bool{})
-	upper := e.leq(I, L, -1, facts, use)
+	upper := e.valLeq(idx, L, -1, facts, use, 0)
 	if !upper {
 		upper = e.descendingBelowLen(idx, x)
 	}
@@ -1383,6 +1392,45 @@ func (e *boundsEngine) indexOK1(x, idx ssa.Value, facts []fact, use ssa.Instruct
 	}
 }
 
+// edgeFacts: what holds when control flows from pred to succ.
+func (e *boundsEngine) edgeFacts(pred, succ *ssa.BasicBlock) []fact {
+	out := e.dominatingFacts(pred)
+	if iff, ok := pred.Instrs[len(pred.Instrs)-1].(*ssa.If); ok && len(pred.Succs) == 2 && pred.Succs[0] != pred.Succs[1] {
+		neg := pred.Succs[1] == succ
+		for _, at := range condAtoms(iff.Cond, neg, 0) {
+			e.pathLoads = nil
+			for _, f := range e.factsFrom(at.bo, at.neg) {
+				f.at = succ
+				f.loads = append([]*ssa.UnOp{}, e.pathLoads...)
+				out = append(out, f)
+			}
+		}
+	}
+	return out
+}
+
+// valLeq:  v - b <= k, looking through phis edge by edge (clamping idiom).
+func (e *boundsEngine) valLeq(v ssa.Value, b lin, k int64, facts []fact, use ssa.Instruction, depth int) bool {
+	if e.leq(e.linOf(v), b, k, facts, use) {
+		return true
+	}
+	if depth > 3 {
+		return false
+	}
+	if ph, ok := v.(*ssa.Phi); ok {
+		for i, ed := range ph.Edges {
+			pred := ph.Block().Preds[i]
+			ef := e.edgeFacts(pred, ph.Block())
+			last := pred.Instrs[len(pred.Instrs)-1]
+			if !e.valLeq(ed, b, k, ef, last, depth+1) {
+				return false
+			}
+		}
+		return len(ph.Edges) > 0
+	}
+	return false
+}
+
 // descendingBelowLen: idx is the induction variable of `for i := len(X)-1; …; i--`:
 // a phi whose entry edge is len(X)-k (k >= 1) for the same X and whose other edges only decrease it.
 func (e *boundsEngine) descendingBelowLen(idx, x ssa.Value) bool {
@@ -1394,11 +1442,16 @@ func (e *boundsEngine) descendingBelowLen(idx, x ssa.Value) bool {
 	if !L.ok {
 		return false
 	}
-	for _, ed := range ph.Edges {
+	for i, ed := range ph.Edges {
 		if bo, ok := ed.(*ssa.BinOp); ok && bo.Op == token.SUB && bo.X == ssa.Value(ph) {
 			if k, isC := core.ConstInt(bo.Y); isC && k > 0 {
 				continue
 			}
+		}
+		// the entry value is below len by a guard that holds where the loop is entered
+		pred := ph.Block().Preds[i]
+		if e.valLeq(ed, L, -1, e.edgeFacts(pred, ph.Block()), pred.Instrs[len(pred.Instrs)-1], 1) {
+			continue
 		}
 		l := e.linOf(ed)
 		if l.ok && l.term == L.term && l.off-L.off <= -1 {
@@ -1441,7 +1494,7 @@ func (e *boundsEngine) sliceOK1(s *ssa.Slice, facts []fact, use ssa.Instruction)
 			return true, ""
 		}
 		// high <= len(x)  (cap is not tracked; re-slicing up to cap is audited)
-		if !e.leq(hi, L, 0, facts, use) {
+		if !e.valLeq(s.High, L, 0, facts, use, 0) {
 			return false, "no dominating guard establishes high <= len"
 		}
 		if s.Low != nil && !e.leq(lo, hi, 0, facts, use) {
@@ -1456,7 +1509,7 @@ func (e *boundsEngine) sliceOK1(s *ssa.Slice, facts []fact, use ssa.Instruction)
 	if s.Low == nil {
 		return true, ""
 	}
-	if !e.leq(lo, L, 0, facts, use) {
+	if !e.valLeq(s.Low, L, 0, facts, use, 0) {
 		return false, "no dominating guard establishes low <= len"
 	}
 	return true, ""
